@@ -4,7 +4,7 @@ from ..check import Slice, Query
 from ..summary import Item, items, is_ok, bv
 
 ID = 'C02'
-ENGINE_B = {'template': 't_nest', 'kinds': ['layout_', 'enum_'], 'max_quick': 8, 'max_thorough': 48}
+ENGINE_B = {'template': 't_nest', 'kinds': ['layout_', 'enum_'], 'max_quick': 12, 'max_thorough': 64}
 BASES = [('u8', 1), ('u16', 2), ('u32', 4), ('u64', 8), ('i8', 1), ('i16', 2), ('i32', 4), ('i64', 8)]
 EXPLANATION = ('Template t_nest: an extern type X with symbolic size/alignment, an inner type I { x: [X; ci] } with optional size/align/'
                'packed, an enum over every integer base, and an outer type O { f0: I | [I; co] | *const I, e: En, _: unknown<pad> } '
